@@ -1,10 +1,14 @@
 package checks
 
 import (
+	"bytes"
+	"encoding/gob"
+	"encoding/hex"
 	"encoding/json"
 	"fmt"
 	"runtime"
 	"sort"
+	"strings"
 	"sync"
 	"time"
 
@@ -133,18 +137,57 @@ func (c *c09Worker) Run(path []SOp) (bfs.Outcome, error) {
 			if err != nil {
 				return out, err
 			}
+			same := true
 			for pos, i := range perm {
 				single := releasedAt(tr2.Released, last+pos, op.Ents[i].Key, false)
 				if single != batchVerdict[i] {
+					same = false
 					out.Viol = append(out.Viol, bfs.Viol{
 						Key:  fmt.Sprintf("batch-vs-single:%s:pos=%d", op.String(), i),
 						What: fmt.Sprintf("batch %s gives signed=%v at position %d but the entry submitted alone (order %v) gives signed=%v", op.String(), batchVerdict[i], i, perm, single),
 					})
 				}
 			}
+			// ... and leaves the records the one-at-a-time submission leaves.
+			if a, b := semRecs(tr.Recs), semRecs(tr2.Recs); same && a != b {
+				out.Viol = append(out.Viol, bfs.Viol{
+					Key:  fmt.Sprintf("batch-vs-single-records:%s", op.String()),
+					What: fmt.Sprintf("batch %s gives the same verdicts as its entries submitted one at a time (order %v) but leaves the records %s where one at a time leaves %s", op.String(), perm, a, b),
+				})
+			}
 		}
 	}
 	return out, nil
+}
+
+// semRecs renders the records by meaning (the old and the current format of the same values are the same record).
+func semRecs(recs []KeyRec) string {
+	var sb strings.Builder
+	for i, r := range recs {
+		fmt.Fprintf(&sb, "%c[", 'A'+i)
+		if raw, _ := hex.DecodeString(r.AttRaw); len(raw) == 17 && raw[0] == 1 {
+			fmt.Fprintf(&sb, "att %d/%d", r.AttS, r.AttT)
+		} else if len(raw) > 0 {
+			var l legacyAtt
+			if err := gob.NewDecoder(bytes.NewReader(raw)).Decode(&l); err == nil {
+				fmt.Fprintf(&sb, "att %d/%d", l.SourceEpoch, l.TargetEpoch)
+			} else {
+				fmt.Fprintf(&sb, "att ?%s", r.AttRaw)
+			}
+		}
+		if raw, _ := hex.DecodeString(r.PropRaw); len(raw) == 9 && raw[0] == 1 {
+			fmt.Fprintf(&sb, " prop %d", r.PropSlot)
+		} else if len(raw) > 0 {
+			var l legacyProp
+			if err := gob.NewDecoder(bytes.NewReader(raw)).Decode(&l); err == nil {
+				fmt.Fprintf(&sb, " prop %d", l.Slot)
+			} else {
+				fmt.Fprintf(&sb, " prop ?%s", r.PropRaw)
+			}
+		}
+		sb.WriteString("]")
+	}
+	return sb.String()
 }
 
 func c09Ops(E []uint64, nkeys int) []SOp {
